@@ -145,7 +145,12 @@ class TestResult(unittest.TestResult):
             if reason is None:
                 reason = "No reason given"
             else:
-                reason = reason.as_text()
+                try:
+                    reason = reason.as_text()
+                except (LookupError, ValueError):
+                    # A reason attachment that is not text, or not decodable:
+                    # file the test under a description of its details.
+                    reason = _details_to_str(details)
         skip_list = self.skip_reasons.setdefault(reason, [])
         skip_list.append(test)
 
@@ -1534,7 +1539,10 @@ class ExtendedToOriginalDecorator:
                 # extract the reason if it's available
                 try:
                     reason = details["reason"].as_text()
-                except KeyError:
+                except (LookupError, ValueError):
+                    # No reason attachment, or one that is not text / not
+                    # decodable (as_text raises ValueError, LookupError for an
+                    # unknown charset): describe all the details instead.
                     reason = _details_to_str(details)
         return addSkip(test, reason)
 
@@ -1630,6 +1638,9 @@ class ExtendedToOriginalDecorator:
 
     def startTestRun(self):
         self._tags = TagContext()
+        # A new run: like TestResult.startTestRun, forget a stop() of the
+        # previous one (the flag only exists for results without shouldStop).
+        self._shouldStop = False
         try:
             return self.decorated.startTestRun()
         except AttributeError:
